@@ -92,3 +92,26 @@ package migration
 //@   ensures applied_bit: calls_WriteSchemaMetadata != old(calls_WriteSchemaMetadata) ==> bitOf(arg_WriteSchemaMetadata_sm.CurrentVersion, migrationIndex)
 //@   ensures state_saved: calls_Migrate == old(calls_Migrate) + 1 && migState != nil && (migErr == nil || result == nil) ==> calls_WriteIntermediateState == old(calls_WriteIntermediateState) + 1 && arg_WriteIntermediateState_state == migState && calls_WriteSchemaMetadata == old(calls_WriteSchemaMetadata)
 //@   ensures nil_means_done_or_saved: result == nil && calls_WriteSchemaMetadata == old(calls_WriteSchemaMetadata) ==> calls_WriteIntermediateState == old(calls_WriteIntermediateState) + 1
+
+// ---- iteration over the set bits, and the opt-out check built on it ------------------------------
+//@ extern func math/bits.OnesCount64
+//@   ensures 0 <= result && result <= 64
+
+// Iter yields exactly the set bits, in ascending order (producer side assumed, see DESIGN.md).
+//@ func (SchemaVersion).Iter
+//@   trusted
+//@   ensures ascending: forall j mathint, k mathint :: 0 <= j && j < k && k < yieldcount(result) ==> yielded(result, j) < yielded(result, k)
+//@   ensures only_set_bits: forall j mathint :: 0 <= j && j < yieldcount(result) ==> yielded(result, j) < 64 && bitOf(sv, yielded(result, j))
+//@   ensures every_set_bit: forall i uint8 :: i < 64 && bitOf(sv, i) ==> (exists j mathint :: 0 <= j && j < yieldcount(result) && yielded(result, j) == i)
+
+// A database that had opted into a migration the binary knows about (its index is within the
+// registry) is refused when that migration is now disabled - whatever other bits are set.
+//@ func validateNoOptOut
+//@   props C18
+//@   arith bv
+//@   requires len(optionalMigrationFlags) <= 64
+//@   modifies *
+//@   loop yield1: invariant in_range: forall j mathint :: 0 <= j && j < yieldindex ==> int(yielded(iterator, j)) < len(optionalMigrationFlags)
+//@   loop yield1: invariant one_flag_each: len(flagList) == yieldindex
+//@   ensures refuses_known_opt_out: (exists i uint8 :: i < 64 && int(i) < len(optionalMigrationFlags) && bitOf(lastTargetVersion, i) && !bitOf(target, i)) ==> result != nil
+//@   ensures accepts_otherwise: result != nil ==> (exists i uint8 :: i < 64 && int(i) < len(optionalMigrationFlags) && bitOf(lastTargetVersion, i) && !bitOf(target, i))
